@@ -14,13 +14,14 @@ RULE = ("worlds with max_recompute in {None,1,2,3,7}, idle stretches, sessions f
         "calls the party scribbles over every object it was handed; non-trivial = >=1 timer-only invocation and >=1 "
         "mutation fault; distinct = per-period history signature")
 PROBES = ["stochastic_network_world", "swapped_in_session_seen", "remaining_amp_periods_checked", "aware_start", "aware_start_run_crosses_dst", "timer_only_call", "mutation", "session_finished_early_hidden", "third_period_pilots", "resumed", "paired_run",
-          "arrival_this_period_seen", "departure_this_period_hidden", "infra_seen_after_reconfig", "custom_event_with_builtin", "mutate_then_crash", "scheduler_swapped_in_before_run"]
+          "arrival_this_period_seen", "departure_this_period_hidden", "infra_seen_after_reconfig", "custom_event_with_builtin", "mutate_then_crash", "scheduler_swapped_in_before_run",
+          "cable_pulled_at_interruption", "limit_changed_at_interruption"]
 FAULT_DIMENSION = ("party mutates handed SessionInfo / InfrastructureInfo / Constraint objects; scheduler crash + rerun; "
                    "operator changes a constraint limit between two periods (the scheduler must see the new, true limits)")
 ASSUMPTIONS = ["'handed' = argument of schedule(), results of active_sessions(), infrastructure_info(), get_constraints()",
                "truth for delivered energy/rates/pilots is the end-of-period tap of the previous period"]
 
-PROFILE = world.profile(zero_demand=0.05, aware_start=0.25, reconfig=0.25, custom_events=0.25, faults={"mutate": 1.2, "crash": 0.3, "mutate_crash": 0.4}, resume_modes=["rerun"],
+PROFILE = world.profile(zero_demand=0.05, aware_start=0.25, reconfig=0.25, forced_unplug=0.35, custom_events=0.25, faults={"mutate": 1.2, "crash": 0.3, "mutate_crash": 0.4}, resume_modes=["rerun"],
                         max_recompute=[None, 1, 2, 3, 7], horizon=(6, 36), chain_fill=(0.2, 0.8), b2b=0.3,
                         demand=(0.02, 1.2), party={"scripted": 4, "uncontrolled": 2, "greedy": 3, "rr": 1},
                         evse_kinds={"cont": 4, "dead": 2, "finite": 3})
@@ -76,6 +77,7 @@ def gen(rs, tier):
     sc["faults"] = world.gen_faults(rs, sc, PROFILE)
     if rs % 4 == 1:
         sc["sim"]["built_with_max_recompute"] = [None, 1, 2, 5][(rs // 4) % 4]
+    world.place_crash_interventions(rs, sc, PROFILE)
     return sc
 
 
@@ -129,6 +131,9 @@ def check(sc):
                 % (got[:25], want[:25], extra[:8], missing[:8], dup[:5], mr))
     # (b) observed state at each call
     by_t = {p["t"]: p for p in tr.periods}
+    pulled = {e_[3]: e_[1] for e_ in tr.ctx.events if e_[0] == "forced_unplug"}      # session -> period of the intervention
+    out.probe("cable_pulled_at_interruption", len(pulled))
+    out.probe("limit_changed_at_interruption", tr.fault_counts.get("reconfig_at_interruption", 0))
     infra_ref = None
     for c in done:
         t = c["t"]
@@ -155,6 +160,8 @@ def check(sc):
                     prev_pilot[v[0]] = prev["pilots"][i]
         exp = {}
         for s in sc["sessions"]:
+            if s["session_id"] in pulled and pulled[s["session_id"]] <= t:
+                continue       # the operator pulled this cable at an interruption point: not connected any more
             if s["arrival"] <= t < s["departure"]:
                 e = prev_e.get(s["session_id"], 0.0) if s["arrival"] < t else 0.0
                 margin = (s["energy"] - e) - 1e-3
